@@ -148,10 +148,39 @@ def analyse(ctx, repo, prop, nb_ctx):
     ctx.notes.append(f"[{prop}] pattern filter reads the value: {gtxt}")
     if guards:
         g0 = guards[0].cond
+        from ..interp import atoms_of
+        ent = Poly.atom(ents[0]) if len(ents) == 1 else None
         okg = len(guards) == 1 and isinstance(g0, CondV) and g0.kind == "truthy" and isinstance(g0.args[0], Num) and \
-            len(ents) == 1 and g0.args[0].p == Poly.atom(ents[0])
-        ctx.check(okg, "MIRROR", f"{tag}.rot.guard", "an entry is emitted iff the position-grid entry P[i][j] is stored/non-zero: the "
-                  "filter does not depend on k or on the side (i,j)/(j,i) other than through P", where, "if el:", witness=gtxt)
+            ent is not None and g0.args[0].p == ent
+        if not okg and len(guards) == 1 and isinstance(g0, CondV) and g0.kind == "cmp" and ent is not None:
+            # `el != 0`
+            op_, a_, b_ = g0.args[0], g0.args[1], g0.args[2]
+            okg = op_ == "!=" and ((a_ == ent and b_.is_zero()) or (b_ == ent and a_.is_zero()))
+        from ..interp import subst
+        esym = ("sym", "P_ij")
+        gat = set()
+        for g_ in guards:
+            gat |= set(atoms_of(subst(g_.cond, {ents[0]: Poly.atom(esym)}))) if ent is not None else set(atoms_of(g_.cond))
+        only_entry = ent is not None and gat == {esym}
+        thr = None
+        if only_entry and len(guards) == 1 and isinstance(g0, CondV) and g0.kind == "cmp":
+            op_, a_, b_ = g0.args[0], g0.args[1], g0.args[2]
+            other = b_ if a_ == ent else (a_ if b_ == ent else None)
+            if other is not None and other.is_const() and op_ in (">", ">=", "<", "<=") and other.as_const() != 0:
+                thr = (op_, other.as_const())
+        if okg:
+            ctx.ok("MIRROR", f"{tag}.rot.guard", "an entry is emitted iff the position-grid entry P[i][j] is stored/non-zero: the "
+                   "filter does not depend on k or on the side (i,j)/(j,i) other than through P", where, "if el:")
+        elif thr is not None:
+            ctx.violate("MIRROR", f"{tag}.rot.guard", "stored position-grid entries are filtered by a value threshold: neighbours whose "
+                        f"{prop} value does not pass `{thr[0]} {thr[1]}` are missing from the same-rotation family", where, "if el:", witness=gtxt)
+        elif only_entry:
+            ctx.inconclusive("MIRROR", f"{tag}.rot.guard", "the emission filter reads only the position-grid entry but is not a plain non-zero "
+                             "test", where, witness=gtxt)
+        else:
+            ctx.violate("MIRROR", f"{tag}.rot.guard", "the emission filter depends on something other than the position-grid entry P[i][j] "
+                        "(k or the side (i,j)/(j,i)): some of the n_b copies / one of the two directions may be dropped", where, "if el:",
+                        witness=gtxt)
     # P is the position matrix of the same property
     if ents:
         Pobj = getattr(interp, "dense_of", {}).get(ents[0][2])
